@@ -35,7 +35,10 @@ type ident struct {
 }
 
 func mkIdent(name string, seed int, ip string) *ident {
-	k := simhost.DetKey(seed)
+	return mkIdentKey(name, simhost.DetKey(seed), ip)
+}
+
+func mkIdentKey(name string, k crypto.PrivKey, ip string) *ident {
 	id, err := peer.IDFromPrivateKey(k)
 	if err != nil {
 		panic(err)
@@ -53,10 +56,14 @@ type world struct {
 	honestRecs map[string][]byte // sealed, valid records of h1/h3/u/obs (replay material)
 }
 
-func newWorld(byzIP string) *world {
+func newWorld(byzIP string, rsaByz bool) *world {
+	byz := mkIdent("BYZ", 2, byzIP)
+	if rsaByz {
+		byz = mkIdentKey("BYZ", fixedRSAKey(), byzIP)
+	}
 	w := &world{
 		obs: mkIdent("O", 1, "10.0.0.1"),
-		byz: mkIdent("BYZ", 2, byzIP),
+		byz: byz,
 		h1:  mkIdent("H1", 3, "10.0.2.3"),
 		h2:  mkIdent("H2", 4, "10.0.3.4"),
 		h3:  mkIdent("H3", 5, "10.0.4.5"),
